@@ -1,5 +1,16 @@
 """C15 — expression type inference is sound and symmetric.
 
+P (fold schema, DESIGN.md 3.1; DagWalker.walk computes the fold of the handlers -- C14): for every operator kind the handler the
+real TypeChecker dispatches it to is executed symbolically from /repo's source against the local soundness obligation
+    (for all children j: args[j] is None or value(arg_j) in [[args[j]]])  =>  result is None or value(e) in [[result]]
+with [[t]] the interval of a numeric type (None bound = unbounded) and value(e) the uninterpreted evaluation under one arbitrary
+fixed interpretation.  PLUS and TIMES are proved for every arity (loop invariants over a symbolic argument list), MINUS / DIV for
+their two arguments; the float +-inf / nan bookkeeping of the handlers is modelled exactly (pyvc/extnum.py).  Integer types:
+`is_int(result) => every argument type is an int type` is proved and closure of Z under + - * is the (trusted) arithmetic fact.
+Every bound handed to IntType / RealType is proved to be None or a finite int / rational (the constructors' own asserts).
+Boolean / relation / leaf handlers are proved to return exactly BOOL / the declared type.  Symmetry of walk_equals is a 2-safety
+obligation: both argument orders give the same outcome (BOOL / None / UPTypeError) for all pairs of types.
+
 B: random numeric / Boolean / object expressions over fluents and parameters with bounded and half-bounded types:
 under random interpretations that respect the declared types (bounds included as extreme values) the value of every
 sub-expression lies in the interval the real TypeChecker infers (exact rational arithmetic, division by non-zero
@@ -10,8 +21,7 @@ import itertools
 import warnings
 from fractions import Fraction
 
-UNITS = []
-USES_THEORY = False
+USES_THEORY = True
 
 
 def bounded(tier, seed):
@@ -81,5 +91,422 @@ def bounded(tier, seed):
                     f"expression with at least one inferred bound", "samples": samples, "bound": f"{n} expressions"}
 
 
-LEVEL = "exploration"
+
+
+# ======================================================================================================= proved layer
+import z3
+from pyvc.values import Ref, Seq, Opt, Bool as PBool, SBool, SRef, SUnion, SSeq, Rec, CList, fresh_name, zbool
+from pyvc.verify import Unit
+from pyvc.engine import LoopSpec
+from pyvc import builtins as B
+from pyvc import extnum as X
+from . import theory as T
+from .theory import OK, evn, args_arr, args_len, ssum, sprod
+import unified_planning.model.types as _types
+import unified_planning.model.walkers.type_checker as _tc
+from unified_planning.model.walkers.generic import nt_to_fun
+from unified_planning.exceptions import UPTypeError as _UPTypeError
+
+QN = "unified_planning.model.walkers.type_checker.TypeChecker."
+Type15 = Ref("Type15", _types.Type)
+_TS = Type15.z3sort()
+Type15.null = z3.Const("Type15.None", _TS)
+BOOLc, TIMEc = z3.Const("Type15.BOOL", _TS), z3.Const("Type15.TIME", _TS)
+for _m in ("is_bool_type", "is_int_type", "is_real_type", "is_user_type", "is_time_type"):
+    Type15.observers[_m] = ((), PBool)
+Type15.observers["is_compatible"] = ((Type15,), PBool)
+Type15.fields["ancestors"] = Seq(Type15)
+Type15.isinstance_hook = lambda e, st, v, clss: True      # only reached through typing.cast / asserts after an is_*_type test
+
+
+def _obs(name):
+    return B._uf(f"Type15.{name}()", _TS, z3.BoolSort())
+
+
+is_bool, is_int, is_real, is_user, is_time = (_obs(n) for n in ("is_bool_type", "is_int_type", "is_real_type", "is_user_type", "is_time_type"))
+lbnone, ubnone = z3.Function("Type15.lb.isnone", _TS, z3.BoolSort()), z3.Function("Type15.ub.isnone", _TS, z3.BoolSort())
+lbR, ubR = z3.Function("Type15.lb", _TS, z3.RealSort()), z3.Function("Type15.ub", _TS, z3.RealSort())
+mkInt = z3.Function("TypeManager.IntType", z3.BoolSort(), z3.RealSort(), z3.BoolSort(), z3.RealSort(), _TS)
+mkReal = z3.Function("TypeManager.RealType", z3.BoolSort(), z3.RealSort(), z3.BoolSort(), z3.RealSort(), _TS)
+
+
+def _bound_attr(nonef, valf, which):
+    def attr(eng, st, t):
+        st.oblige(f"{which} is read on a numeric type only", z3.Or(is_int(t.z), is_real(t.z)))
+        return SUnion([(nonef(t.z), None), (z3.Not(nonef(t.z)), X.SExt(z3.If(is_int(t.z), X.K_INT, X.K_FRAC), valf(t.z)))])
+    return attr
+
+
+Type15.attrs["lower_bound"] = _bound_attr(lbnone, lbR, "lower_bound")
+Type15.attrs["upper_bound"] = _bound_attr(ubnone, ubR, "upper_bound")
+
+TM15 = Ref("TypeManager15")
+Env15 = Ref("Environment15", fields={"type_manager": TM15})
+
+
+def _mk_numeric(is_int_type):
+    def m(eng, st, selfv, args, kw):
+        lo, hi = (list(args) + [None, None])[:2]
+        lo, hi = kw.get("lower_bound", lo), kw.get("upper_bound", hi)
+        parts = []
+        for nm, b in (("lower", lo), ("upper", hi)):
+            if b is None:
+                parts += [z3.BoolVal(True), z3.RealVal(0)]
+                continue
+            e = X.to_ext(b)
+            if e is None:
+                raise Unsupported(f"bound {b!r}")
+            if is_int_type:
+                st.oblige(f"IntType {nm} bound is None or an int (constructor assert)", e.k == X.K_INT)
+                st.assume(e.k == X.K_INT)
+            else:
+                st.oblige(f"RealType {nm} bound is None or a finite int / Fraction (uniform_numeric_constant)", e.finite())
+                st.assume(e.finite())
+            parts += [z3.BoolVal(False), e.v]
+        r = (mkInt if is_int_type else mkReal)(*parts)
+        st.assume(r != Type15.null, is_int(r) == z3.BoolVal(is_int_type), is_real(r) == z3.BoolVal(not is_int_type),
+                  z3.Not(is_bool(r)), z3.Not(is_user(r)), z3.Not(is_time(r)), r != BOOLc, r != TIMEc,
+                  lbnone(r) == parts[0], ubnone(r) == parts[2])
+        if lo is not None:
+            st.assume(lbR(r) == parts[1])
+        if hi is not None:
+            st.assume(ubR(r) == parts[3])
+        yield st, Type15.wrap(r)
+    return m
+
+
+TM15.methods["IntType"] = _mk_numeric(True)
+TM15.methods["RealType"] = _mk_numeric(False)
+
+
+def type_axioms():
+    t = z3.Const("t!15", _TS)
+    flags = [is_bool(t), is_int(t), is_real(t), is_user(t), is_time(t)]
+    import itertools as _it
+    excl = z3.And([z3.Or(z3.Not(a), z3.Not(b)) for a, b in _it.combinations(flags, 2)])
+    ax = [z3.ForAll([t], excl, patterns=[is_int(t)]), z3.ForAll([t], excl, patterns=[is_real(t)]),
+          z3.ForAll([t], excl, patterns=[is_user(t)]),
+          z3.ForAll([t], is_bool(t) == (t == BOOLc), patterns=[is_bool(t)]),      # BOOL / TIME are singletons (types.py)
+          z3.ForAll([t], is_time(t) == (t == TIMEc), patterns=[is_time(t)]),
+          BOOLc != Type15.null, TIMEc != Type15.null, BOOLc != TIMEc,
+          is_bool(BOOLc), z3.Not(is_int(BOOLc)), z3.Not(is_real(BOOLc)), z3.Not(is_user(BOOLc)), z3.Not(is_time(BOOLc)),
+          is_time(TIMEc), z3.Not(is_int(TIMEc)), z3.Not(is_real(TIMEc)), z3.Not(is_user(TIMEc)), z3.Not(is_bool(TIMEc))]
+    return ax
+
+
+def numeric(t):
+    return z3.Or(is_int(t), is_real(t))
+
+
+def within(t, v):
+    """v lies in the interval of the numeric type t"""
+    return z3.And(z3.Or(lbnone(t), lbR(t) <= v), z3.Or(ubnone(t), v <= ubR(t)))
+
+
+def _install(eng):
+    eng.lift[id(_types.BOOL)] = Type15.wrap(BOOLc)
+    eng.lift[id(_types.TIME)] = Type15.wrap(TIMEc)
+    eng.axioms += type_axioms() + T.semantic_axioms() + T.fold_axioms() + T.prefix_lemmas()
+    T.Parameter.fields["type"] = Type15
+    T.Variable.fields["type"] = Type15
+    T.Object.fields["type"] = Type15
+    T.Fluent.fields["type"] = Type15
+    T.Fluent.fields["signature"] = Seq(T.Parameter)
+    T.IFun.fields["return_type"] = Type15
+    T.IFun.fields["signature"] = Seq(T.Parameter)
+    # declared types are Type objects, never None (constructors of Parameter / Variable / Object / Fluent assert it)
+    for ref, nm, fld in ((T.Parameter, "Parameter", "type"), (T.Variable, "Variable", "type"), (T.Object, "Object", "type"),
+                         (T.Fluent, "Fluent", "type"), (T.IFun, "InterpretedFunction", "return_type")):
+        x = z3.Const("x!decl", ref.z3sort())
+        f = B._uf(f"{nm}.{fld}", ref.z3sort(), _TS)
+        eng.axioms.append(z3.ForAll([x], f(x) != Type15.null, patterns=[f(x)]))
+
+
+def _opt_ext(v):
+    """(is-None as z3 Bool, SExt | None) of a local that is None or an extended number"""
+    if v is None:
+        return z3.BoolVal(True), None
+    if isinstance(v, SUnion):
+        g, ext = None, None
+        for gg, a in v.alts:
+            if a is None:
+                g = gg
+            else:
+                ext = X.to_ext(a)
+        return (g if g is not None else z3.BoolVal(False)), ext
+    return z3.BoolVal(False), X.to_ext(v)
+
+
+def _ex_prefix(seq, i, pred):
+    j = z3.Int(fresh_name("j"))
+    return z3.Exists([j], z3.And(0 <= j, j < i, pred(z3.Select(seq.arr, j))))
+
+
+def _all_prefix(seq, i, pred):
+    j = z3.Int(fresh_name("j"))
+    return z3.ForAll([j], z3.Implies(z3.And(0 <= j, j < i), pred(z3.Select(seq.arr, j))))
+
+
+class NumHandler(Unit):
+    """interval soundness of one arithmetic handler"""
+    prop = "C15"
+    allowed_raises = ()
+
+    def __init__(self, kind):
+        self.kind = kind
+        self.fn = getattr(_tc.TypeChecker, nt_to_fun(kind))
+        self.name = f"TypeChecker[{kind.name}] -> {self.fn.__name__}"
+        self.doc = "children values lie in the children's inferred types  =>  the node's value lies in the inferred type"
+        if kind == OK.DIV:
+            self.allowed_raises = (ZeroDivisionError,)
+
+    def target(self):
+        return self.fn
+
+    def configure(self, eng):
+        _install(eng)
+        fname = self.fn.__name__
+        time_ok = fname in ("walk_plus", "walk_minus")
+
+        def ok_arg(t):
+            base = z3.And(t != Type15.null, numeric(t))
+            return z3.Or(base, t == TIMEc) if time_ok else base
+
+        def scan(L):
+            args, i = L._seq, zint15(L._i)
+            out = [("scanned arguments are numeric" + (" or TIME" if time_ok else ""), _all_prefix(args, i, ok_arg)),
+                   ("has_real == some scanned argument is a real type", zbool(L.has_real) == _ex_prefix(args, i, is_real))]
+            if time_ok:
+                out.append(("is_time == some scanned argument is TIME", zbool(L.is_time) == _ex_prefix(args, i, lambda t: t == TIMEc)))
+            return out
+        if fname in ("walk_plus", "walk_times"):
+            eng.loops[(QN + fname, 0)] = LoopSpec(scan, modifies=["x", "has_real"] + (["is_time"] if time_ok else []), types={"x": Type15})
+            fold = ssum if fname == "walk_plus" else sprod
+            is_plus = fname == "walk_plus"
+
+            def acc(L):
+                args, i = L._seq, zint15(L._i)
+                e = L.expression
+                val = fold(args_arr(e.z), i)
+                ln, lo = _opt_ext(L.lower)
+                un, up = _opt_ext(L.upper)
+                out = [("lower is None exactly before the first argument", ln == (i == 0)),
+                       ("upper is None exactly before the first argument", un == (i == 0))]
+                if lo is not None and up is not None:
+                    started = i > 0
+                    frac = _ex_prefix(args, i, is_real)
+                    out += [("lower is a finite number, -inf" + ("" if is_plus else " or nan"),
+                             z3.Implies(started, z3.And(lo.wf(), lo.k != X.K_PINF, (lo.k != X.K_NAN) if is_plus else z3.BoolVal(True)))),
+                            ("upper is a finite number, +inf" + ("" if is_plus else " or nan"),
+                             z3.Implies(started, z3.And(up.wf(), up.k != X.K_NINF, (up.k != X.K_NAN) if is_plus else z3.BoolVal(True)))),
+                            ("finite lower <= value of the prefix", z3.Implies(z3.And(started, lo.finite()), lo.v <= val)),
+                            ("value of the prefix <= finite upper", z3.Implies(z3.And(started, up.finite()), val <= up.v)),
+                            ("finite lower is a Fraction iff a real-typed argument was seen", z3.Implies(z3.And(started, lo.finite()), (lo.k == X.K_FRAC) == frac)),
+                            ("finite upper is a Fraction iff a real-typed argument was seen", z3.Implies(z3.And(started, up.finite()), (up.k == X.K_FRAC) == frac))]
+                    if not is_plus:
+                        out.append(("lower is nan iff upper is nan", z3.Implies(started, (lo.k == X.K_NAN) == (up.k == X.K_NAN))))
+                return out
+            eng.loops[(QN + fname, 1)] = LoopSpec(acc, modifies=["x", "lower", "upper", "l", "u", "products"] if not is_plus else ["x", "lower", "upper"],
+                                                  types={"x": Type15, "lower": Opt(X.Ext), "upper": Opt(X.Ext)})
+
+    def setup(self, eng, st):
+        w = st.alloc(Rec(_tc.TypeChecker, {"environment": Env15.fresh("env")}), "TypeChecker")
+        e = T.FNode.fresh("expression")
+        T.assume_node(eng, st, e.z, self.kind)
+        j = z3.Int(fresh_name("j"))
+        if self.kind in (OK.MINUS, OK.DIV):
+            ts = [Type15.fresh("t0"), Type15.fresh("t1")]
+            for k, t in enumerate(ts):
+                st.assume(z3.Implies(z3.And(t.z != Type15.null, numeric(t.z)), within(t.z, evn(z3.Select(args_arr(e.z), k)))))
+            args = st.alloc(CList(ts), "list")
+            ctx = dict(e=e, ts=ts)
+        else:
+            seq = eng.fresh_of(st, Seq(Type15), "args")
+            st.assume(seq.n == args_len(e.z))
+            tj = z3.Select(seq.arr, j)
+            st.assume(z3.ForAll([j], z3.Implies(z3.And(0 <= j, j < seq.n, tj != Type15.null, numeric(tj)),
+                                                within(tj, evn(z3.Select(args_arr(e.z), j)))), patterns=[z3.Select(seq.arr, j)]))
+            args = st.alloc(seq, "list")
+            ctx = dict(e=e, seq=seq)
+        return [w, e, args], {}, ctx
+
+    def _args(self, ctx):
+        if "ts" in ctx:
+            return SSeq.of(Type15, ctx["ts"])
+        return ctx["seq"]
+
+    def post(self, eng, ctx, st, out):
+        e = ctx["e"]
+        args = self._args(ctx)
+        time_ok = self.kind in (OK.PLUS, OK.MINUS)
+        if out[0] == "raise":
+            if out[1].cls is ZeroDivisionError:
+                d = z3.Select(args.arr, 1)
+                st.oblige("ZeroDivisionError only for the constant divisor 0", z3.And(z3.Not(lbnone(d)), z3.Not(ubnone(d)), lbR(d) == 0, ubR(d) == 0))
+            return
+        r = out[1]
+        if isinstance(r, SUnion):
+            raise Unsupported("result union")
+
+        def bad(t):
+            b = z3.Or(t == Type15.null, z3.Not(numeric(t)))
+            return z3.And(b, t != TIMEc) if time_ok else b
+        if r is None:
+            st.oblige("None only when an argument is ill-typed", _ex_prefix(args, args.n, bad))
+            return
+        rz = r.z
+        st.oblige("result is not None only when no argument is ill-typed", z3.Implies(rz != Type15.null, z3.Not(_ex_prefix(args, args.n, bad))))
+        if time_ok:
+            st.oblige("TIME iff an argument is TIME", (rz == TIMEc) == _ex_prefix(args, args.n, lambda t: t == TIMEc))
+        st.oblige("result is TIME or a numeric type", z3.Or(rz == TIMEc, numeric(rz)) if time_ok else numeric(rz))
+        guard = z3.And(rz != Type15.null, rz != TIMEc)
+        if self.kind == OK.DIV:
+            st.oblige("a quotient is typed real", z3.Implies(guard, is_real(rz)))
+            guard = z3.And(guard, evn(z3.Select(args_arr(e.z), 1)) != 0)
+        else:
+            st.oblige("integer type only if every argument has an integer type",
+                      z3.Implies(z3.And(guard, is_int(rz)), _all_prefix(args, args.n, is_int)))
+        st.oblige("lower bound is sound", z3.Implies(z3.And(guard, z3.Not(lbnone(rz))), lbR(rz) <= evn(e.z)))
+        st.oblige("upper bound is sound", z3.Implies(z3.And(guard, z3.Not(ubnone(rz))), evn(e.z) <= ubR(rz)))
+
+
+def zint15(v):
+    from pyvc.values import zint
+    return zint(v)
+
+
+from pyvc.values import Unsupported  # noqa: E402
+
+class ExactHandler(Unit):
+    """handlers whose result is exactly BOOL / TIME / the declared type (or None for an ill-typed node)"""
+    prop = "C15"
+
+    def __init__(self, kind):
+        self.kind = kind
+        self.fn = getattr(_tc.TypeChecker, nt_to_fun(kind))
+        self.name = f"TypeChecker[{kind.name}] -> {self.fn.__name__}"
+        self.doc = "Boolean operators, relations and leaves get exactly their type; a constant gets the degenerate interval of its value"
+
+    def target(self):
+        return self.fn
+
+    def configure(self, eng):
+        _install(eng)
+        fname = self.fn.__name__
+        if fname == "walk_bool_to_bool":
+            def inv(L):
+                return [("scanned arguments are BOOL", _all_prefix(L._seq, zint15(L._i), lambda t: t == BOOLc))]
+            eng.loops[(QN + fname, 0)] = LoopSpec(inv, modifies=["x"], types={"x": Type15})
+        if fname in ("walk_fluent_exp", "walk_interpreted_function_exp"):
+            def inv2(L):
+                z = L._seq
+                sig, args = z.parts
+                j = z3.Int(fresh_name("j"))
+                pt = B._uf("Parameter.type", T.Parameter.z3sort(), _TS)
+                comp = B._uf("Type15.is_compatible()", _TS, _TS, z3.BoolSort())
+                return [("scanned arguments are compatible with the signature",
+                         z3.ForAll([j], z3.Implies(z3.And(0 <= j, j < zint15(L._i)), comp(pt(z3.Select(sig.arr, j)), z3.Select(args.arr, j)))))]
+            eng.loops[(QN + fname, 0)] = LoopSpec(inv2, modifies=["param", "arg"], types={"param": T.Parameter, "arg": Type15})
+
+    def setup(self, eng, st):
+        w = st.alloc(Rec(_tc.TypeChecker, {"environment": Env15.fresh("env")}), "TypeChecker")
+        e = T.FNode.fresh("expression")
+        T.assume_node(eng, st, e.z, self.kind)
+        seq = eng.fresh_of(st, Seq(Type15), "args")
+        if self.kind in T.ARITY or self.kind in (OK.PARAM_EXP, OK.VARIABLE_EXP, OK.TIMING_EXP, OK.PRESENT_EXP):
+            st.assume(seq.n == T.ARITY.get(self.kind, 0), args_len(e.z) == seq.n)
+        elif self.kind in (OK.ALWAYS, OK.SOMETIME, OK.AT_MOST_ONCE):
+            st.assume(seq.n == 1, args_len(e.z) == 1)
+        elif self.kind in (OK.SOMETIME_BEFORE, OK.SOMETIME_AFTER):
+            st.assume(seq.n == 2, args_len(e.z) == 2)
+        return [w, e, st.alloc(seq, "list")], {}, dict(e=e, seq=seq)
+
+    def post(self, eng, ctx, st, out):
+        if out[0] != "return":
+            return
+        r, e, args = out[1], ctx["e"], ctx["seq"]
+        k = self.kind
+        rz = None if r is None else r.z
+        isnone = z3.BoolVal(True) if r is None else (rz == Type15.null)
+        if k in (OK.AND, OK.OR, OK.NOT, OK.IMPLIES, OK.IFF, OK.EXISTS, OK.FORALL):
+            allbool = _all_prefix(args, args.n, lambda t: t == BOOLc)
+            st.oblige("BOOL iff every argument is BOOL, otherwise None", z3.If(allbool, z3.Not(isnone) if r is None else rz == BOOLc, isnone))
+        elif k in (OK.LE, OK.LT):
+            oknum = _all_prefix(args, args.n, lambda t: z3.And(t != Type15.null, z3.Or(is_int(t), is_real(t), is_time(t))))
+            st.oblige("BOOL iff both arguments are numeric or time, otherwise None", z3.If(oknum, z3.Not(isnone) if r is None else rz == BOOLc, isnone))
+        elif k in (OK.BOOL_CONSTANT, OK.PRESENT_EXP):
+            st.oblige("exactly BOOL", z3.BoolVal(False) if r is None else rz == BOOLc)
+        elif k == OK.TIMING_EXP:
+            st.oblige("exactly TIME", z3.BoolVal(False) if r is None else rz == TIMEc)
+        elif k in (OK.INT_CONSTANT, OK.REAL_CONSTANT):
+            if r is None:
+                st.oblige("a constant is typed", z3.BoolVal(False))
+                return
+            v = evn(e.z)
+            st.oblige("degenerate interval of the constant's value", z3.And(z3.Not(lbnone(rz)), z3.Not(ubnone(rz)), lbR(rz) == v, ubR(rz) == v))
+            st.oblige("int constant -> int type, real constant -> real type", is_int(rz) if k == OK.INT_CONSTANT else is_real(rz))
+        elif k in (OK.PARAM_EXP, OK.VARIABLE_EXP, OK.OBJECT_EXP):
+            ref, nm = {OK.PARAM_EXP: (T.Parameter, "Parameter"), OK.VARIABLE_EXP: (T.Variable, "Variable"), OK.OBJECT_EXP: (T.Object, "Object")}[k]
+            payload = B._uf(f"FNode.payload.{k.name}", T.FNode.z3sort(), ref.z3sort())(e.z)
+            declared = B._uf(f"{nm}.type", ref.z3sort(), _TS)(payload)
+            st.oblige("exactly the declared type", z3.BoolVal(False) if r is None else rz == declared)
+        elif k in (OK.FLUENT_EXP, OK.INTERPRETED_FUNCTION_EXP):
+            ref, nm, fld = (T.Fluent, "Fluent", "type") if k == OK.FLUENT_EXP else (T.IFun, "InterpretedFunction", "return_type")
+            payload = B._uf(f"FNode.payload.{k.name}", T.FNode.z3sort(), ref.z3sort())(e.z)
+            declared = B._uf(f"{nm}.{fld}", ref.z3sort(), _TS)(payload)
+            sig_arr = B._uf(f"{nm}.signature.arr", ref.z3sort(), z3.ArraySort(z3.IntSort(), T.Parameter.z3sort()))(payload)
+            sig_len = B._uf(f"{nm}.signature.len", ref.z3sort(), z3.IntSort())(payload)
+            pt = B._uf("Parameter.type", T.Parameter.z3sort(), _TS)
+            comp = B._uf("Type15.is_compatible()", _TS, _TS, z3.BoolSort())
+            j = z3.Int(fresh_name("j"))
+            ok = z3.And(sig_len == args.n, z3.ForAll([j], z3.Implies(z3.And(0 <= j, j < args.n), comp(pt(z3.Select(sig_arr, j)), z3.Select(args.arr, j)))))
+            st.oblige("the declared type iff arity and argument types fit the signature, otherwise None",
+                      z3.If(ok, z3.Not(isnone) if r is None else rz == declared, isnone))
+        elif k in (OK.ALWAYS, OK.SOMETIME, OK.AT_MOST_ONCE, OK.SOMETIME_BEFORE, OK.SOMETIME_AFTER):
+            allbool = _all_prefix(args, args.n, lambda t: t == BOOLc)
+            st.oblige("BOOL iff every argument is BOOL, otherwise None", z3.If(allbool, z3.Not(isnone) if r is None else rz == BOOLc, isnone))
+        else:
+            raise Unsupported(f"no post-condition for {k}")
+
+
+from contracts.harness import c15 as H15  # noqa: E402
+
+
+class EqualsSymmetry(Unit):
+    prop = "C15"
+    name = "TypeChecker.walk_equals symmetric (2-safety)"
+    doc = "walk_equals(e, [a, b]) and walk_equals(e', [b, a]) have the same outcome (BOOL / None / UPTypeError) for all types a, b"
+
+    def target(self):
+        return H15.equals_symmetric
+
+    def configure(self, eng):
+        _install(eng)
+        t1, t2 = z3.Const("a!anc", _TS), z3.Const("b!anc", _TS)
+        eng.axioms += []
+
+    def setup(self, eng, st):
+        w = st.alloc(Rec(_tc.TypeChecker, {"environment": Env15.fresh("env")}), "TypeChecker")
+        e1, e2 = T.FNode.fresh("e_ab"), T.FNode.fresh("e_ba")
+        a, b = Type15.fresh("a"), Type15.fresh("b")
+        # the children of an existing node passed the type check when they were built (C16): their types are not None
+        st.assume(a.z != Type15.null, b.z != Type15.null)
+        return [w, e1, e2, a, b], {}, dict(a=a, b=b)
+
+    def post(self, eng, ctx, st, out):
+        if out[0] == "return":
+            bv = eng.as_bool_value(st, out[1])
+            st.oblige("both argument orders have the same outcome", zbool(bv) if bv is not None else z3.BoolVal(False))
+
+
+EXACT_KINDS = [OK.AND, OK.OR, OK.NOT, OK.IMPLIES, OK.IFF, OK.EXISTS, OK.FORALL, OK.LE, OK.LT, OK.BOOL_CONSTANT, OK.INT_CONSTANT,
+               OK.REAL_CONSTANT, OK.PARAM_EXP, OK.VARIABLE_EXP, OK.OBJECT_EXP, OK.TIMING_EXP, OK.PRESENT_EXP, OK.FLUENT_EXP,
+               OK.INTERPRETED_FUNCTION_EXP, OK.ALWAYS, OK.SOMETIME, OK.AT_MOST_ONCE, OK.SOMETIME_BEFORE]
+# (walk_sometime_after re-enters the type checker through `expression.args[k].type` in an assert: outside the fold schema, bounded layer only)
+NUM_KINDS = [OK.PLUS, OK.MINUS, OK.TIMES, OK.DIV]
+UNITS = [NumHandler(k) for k in NUM_KINDS] + [ExactHandler(k) for k in EXACT_KINDS] + [EqualsSymmetry()]
+LEVEL = "other"
 EXPLANATION = __doc__
+TRUSTED = ["types reaching the checker come from the TypeManager (BOOL / TIME singletons, one class per type)",
+           "Z is closed under + - * (integer-typed results)", "pyvc/extnum.py: CPython semantics of int / Fraction / +-inf / nan arithmetic",
+           "DagWalker.walk computes the fold of the handlers (C14)"]
